@@ -166,7 +166,7 @@ Definition prop_ok_w (w : wcase) (trace : list N) : bool :=
                   let* data := yp_rle in
                   let* fin := pN in pret (obs, stopped, lens, data, fin)) body with
       | Some (obs, stopped, lens, data, fin) =>
-          match ytrace_ok (wc_codec w) ops obs zero_yobs [] false with
+          match ytrace_ok false (wc_codec w) ops obs zero_yobs [] false with
           | Some (acc, broken, last) =>
               let queue_empty := is_nil (yo_frames last) && (yo_cur last =? 0) && (yo_pbytes last =? 0) in
               let undisturbed := only_polls (env_of (wc_ops w)) && only_polls (wc_wakes w) in
